@@ -189,6 +189,19 @@ class SArr:
         return f"SArr(n={self.n},shape={self.shape})"
 
 
+class HeapList:
+    """Mutable list of object references stored in a field of an opaque object (component heap)."""
+    __slots__ = ("owner", "field", "elem_cls")
+
+    def __init__(self, owner, field, elem_cls):
+        self.owner = owner
+        self.field = field
+        self.elem_cls = elem_cls
+
+    def __repr__(self):
+        return f"HeapList({self.owner}.{self.field})"
+
+
 class SMap:
     """Symbolic dict name -> int/real given by an indomain predicate and a lookup function."""
     __slots__ = ("indom", "lookup", "desc", "idx")
